@@ -192,8 +192,11 @@ def worker(wid, jobs, results, args):
                 results.put(rec)
                 continue
             open(target, 'w').write(new_src)
-            rc, out = sh('cd %s && %s -m pytest -x -q -p no:cacheprovider --timeout=120 --continue-on-collection-errors 2>&1 | tail -3'
-                         % (wt, PY), timeout=900)
+            if args.skip_suite:
+                out = '683 passed'
+            else:
+                rc, out = sh('cd %s && %s -m pytest -x -q -p no:cacheprovider --timeout=120 --continue-on-collection-errors 2>&1 | tail -3'
+                             % (wt, PY), timeout=900)
             if '683 passed' not in out:
                 rec['status'] = 'killed-by-suite'
                 results.put(rec)
@@ -231,11 +234,14 @@ def main():
     ap.add_argument('--only', default='')
     ap.add_argument('--limit', type=int, default=0)
     ap.add_argument('--out', default='/tmp/amut/results.jsonl')
+    ap.add_argument('--points', default='', help='file of rel:line:kind lines - run only these mutation points')
+    ap.add_argument('--skip-suite', action='store_true', help='the points are known survivors of the test suite')
     args = ap.parse_args()
     os.makedirs('/tmp/amut', exist_ok=True)
     rc, files = sh('git -C %s ls-files vakt' % REPO)
     jobs = queue.Queue()
     n = 0
+    points = set(l.strip() for l in open(args.points)) if args.points else None
     for rel in files.split():
         if not rel.endswith('.py') or args.only not in rel:
             continue
@@ -245,6 +251,8 @@ def main():
         col.generic_visit(tree)
         for path, kind in col.points:
             node = get_node(tree, path)
+            if points is not None and '%s:%d:%s' % (rel, getattr(node, 'lineno', 0), kind) not in points:
+                continue
             jobs.put((rel, tree, path, kind, getattr(node, 'lineno', 0)))
             n += 1
             if args.limit and n >= args.limit:
